@@ -104,7 +104,8 @@ def judge(t):
         for (m, ast, mi) in a['mods']:
             sp = scn['modules'].get(m)
             if sp is not None:
-                lost = [d for d in sp.get('imports', []) if sp.get('spell', {}).get(d, d) not in mi.imported]
+                from verif.gen import mibgen
+                lost = [d for d in mibgen.declared_imports(sp) if d not in mi.imported]
                 if lost:
                     V('C08.1-closure', 'module %s imports %s but the compiler did not register them' % (m, lost), what='import-lost')
     # 3b. the tree handed to the generator is the one parsed from the first supplying source
